@@ -50,7 +50,7 @@ func TestMain(m *testing.M) {
 }
 
 type stats struct {
-	lookups, nonEmpty, mapForm, reorgs, toggles, emptiedAndRepaid, restored, foreign, cutSaves int
+	lookups, nonEmpty, mapForm, reorgs, toggles, emptiedAndRepaid, restored, foreign, cutSaves, reloads int
 }
 
 // addrOf builds the address object for an address-shaped script with the reference decoder's view.
@@ -94,10 +94,15 @@ func runExt(c Case, st *stats, x *ext) (*sim.Sim, error) {
 	var s *sim.Sim
 	walletOn := false
 	curMin := c.MinValue // the minimum value the index is (to be) built with
+	// a minimum value edited in the configuration at run time (config_reload) waits for the next wallet off/on or restart
+	pendingMin, pending := uint64(0), false
 	enable := func() {
 		common.BlockChain = s.Node.Ch
 		common.Testnet = false
 		common.CFG.Testnet = false
+		if pending {
+			curMin, pending = pendingMin, false
+		}
 		common.CFG.AllBalances.MinValue = curMin
 		common.CFG.AllBalances.UseMapCnt = c.UseMapCnt
 		common.GocoinHomeDir = s.Dir + "/"
@@ -137,6 +142,17 @@ func runExt(c Case, st *stats, x *ext) (*sim.Sim, error) {
 				enable()
 				st.toggles++
 			}
+		case "config_reload":
+			// the operator edits the minimum value and reloads the configuration at run time (text UI configload /
+			// configset, the WebUI's configuration page - all end in common.Reset()): the node says "restart the node or
+			// do wallet off / wallet on"; until then the running index keeps working with the value it was built with
+			pendingMin, pending = []uint64{0, 1, 1000, 100000, 50000000, 2500000000}[op.Arg%6], true
+			common.CFG.AllBalances.MinValue = pendingMin
+			if common.CFG.Memory.GCPercTrshold == 0 {
+				common.CFG.Memory.GCPercTrshold = 100 // (the default of the configuration, which is not loaded here)
+			}
+			common.Reset()
+			st.reloads++
 		case "wallet_restart":
 			// node shutdown and start on the same block: the index is written to disk (SaveBalances) and read back
 			// (LoadBalances; rebuilt from the unspent set if that fails - what client/main.go does)
@@ -150,13 +166,16 @@ func runExt(c Case, st *stats, x *ext) (*sim.Sim, error) {
 				// (the node then says "restart the node or do wallet off/on"): the running index, and what is saved, is
 				// still the one of the old value; after the restart the new value applies
 				newMin := curMin
+				if pending {
+					newMin = pendingMin
+				}
 				if op.Arg%3 == 0 {
 					newMin = []uint64{0, 1, 1000, 100000, 50000000, 2500000000}[op.Arg/3%6]
 					common.CFG.AllBalances.MinValue = newMin
 				}
 				if err := wallet.SaveBalances(); err == nil {
 					wallet.Disable()
-					curMin = newMin
+					curMin, pending = newMin, false
 					// now and then the save was cut short (the process died / the disk was full while the index was
 					// written at shutdown): one of the files is shorter than it should be, empty or missing.  The start
 					// then has to notice and rebuild the index from the unspent set - never run with a partial one.
@@ -178,6 +197,7 @@ func runExt(c Case, st *stats, x *ext) (*sim.Sim, error) {
 					walletOn = common.Get(&common.WalletON)
 				} else {
 					common.CFG.AllBalances.MinValue = curMin // nothing was saved: the node keeps running as it was
+					pending = false
 				}
 			}
 		case "shutdown":
@@ -190,6 +210,7 @@ func runExt(c Case, st *stats, x *ext) (*sim.Sim, error) {
 				if err := check(); err != nil {
 					return fmt.Errorf("before the shutdown: %v", err)
 				}
+				common.CFG.AllBalances.MinValue, pending = curMin, false
 				err := x.onShutdown(s, curMin)
 				walletOn = common.Get(&common.WalletON)
 				if err != nil {
@@ -317,8 +338,8 @@ func genCase(t *rapid.T, p sim.Profile) Case {
 	// sprinkle index off/on switches
 	var ops []sim.Op
 	for _, op := range c.Sim.Ops {
-		if rapid.IntRange(0, 14).Draw(t, "toggle") == 0 {
-			ops = append(ops, sim.Op{Kind: rapid.SampledFrom([]string{"wallet_off", "wallet_on", "wallet_on", "wallet_restart", "wallet_restart"}).Draw(t, "which"),
+		if rapid.IntRange(0, 11).Draw(t, "toggle") == 0 {
+			ops = append(ops, sim.Op{Kind: rapid.SampledFrom([]string{"wallet_off", "wallet_on", "wallet_on", "wallet_restart", "wallet_restart", "wallet_restart", "wallet_restart", "config_reload"}).Draw(t, "which"),
 				Arg: rapid.IntRange(0, 9999).Draw(t, "restartarg")})
 		}
 		ops = append(ops, op)
@@ -402,6 +423,9 @@ func TestBalances(t *testing.T) {
 		}
 		if st.cutSaves > 0 {
 			r.Class("saved_index_cut_short_before_the_restart")
+		}
+		if st.reloads > 0 {
+			r.Class("configuration_reloaded_with_another_minimum_value")
 		}
 		if st.restored > 0 {
 			r.Class("index_saved_and_restored")
